@@ -1,6 +1,420 @@
-//! C13 — not implemented yet.
-use crate::core::Ctx;
-use serde_json::Value;
+//! C13 — BasicAuth fang admits exactly the configured credentials (DESIGN §5 C13).
+//!
+//! configuration = ordered list of 1..3 distinct (user, password) pairs, installed as `BasicAuth` (length 1
+//! only) or as `[BasicAuth; N]`, in front of one route `/` (GET and POST) whose handler counts its runs.
+//! case = (configuration, method, Authorization header or its absence); every case goes through the real
+//! read → router (fang) → send path (`app::oneshot`).
+//!
+//! Oracle (`expectation`): an independent strict RFC 4648 decoder (`refmodel::b64`), `str::from_utf8`,
+//! split at the *first* colon, membership of the *pair* in the configured list.
+//!   * header is exactly `Basic ` + canonical padded base64 of `user:password` of a configured pair → handler runs
+//!   * same credentials spelled in a way HTTP treats as equivalent but the statement does not mention (scheme in
+//!     another case, several blanks after the scheme, blanks around the field value, non-zero unused bits in the
+//!     last base64 symbol) → not decided by the statement: counted as ambiguous
+//!   * everything else → 401, a `WWW-Authenticate: Basic…` header, handler does not run
 
-pub fn run(ctx: &mut Ctx) { ctx.machinery_error("C13 engine not implemented".into()); }
-pub fn replay(ctx: &mut Ctx, _case: &Value) { ctx.machinery_error("C13 engine not implemented".into()); }
+use crate::app::{self, Outcome};
+use crate::core::{esc, guarded, panic_kind, strings_over, unesc, Ctx};
+use crate::refmodel::b64::{self, Alphabet, B64Error, Padding};
+use ohkami::__verif__::VerifRouter;
+use ohkami::fang::BasicAuth;
+use ohkami::prelude::*;
+use serde_json::{json, Value};
+use std::sync::atomic::{AtomicU64, Ordering};
+
+static RUNS: AtomicU64 = AtomicU64::new(0);
+const MARK: &str = "ran:protected";
+
+async fn protected() -> &'static str {
+    RUNS.fetch_add(1, Ordering::SeqCst);
+    MARK
+}
+
+/// the pair alphabet of DESIGN §5 C13 (+ one password whose base64 contains `+` and `/`, so that the URL-safe
+/// spelling differs from the standard one)
+pub const PAIRS: [(&str, &str); 8] = [
+    ("u", "p"), ("u", "p:q"), ("", "p"), ("u", ""), ("ü", "pä"), ("u", "pp"), ("uu", "p"), ("u", "p>>>???"),
+];
+
+#[derive(Clone, Copy, PartialEq, Eq, Debug)]
+pub enum Kind { Single, Array }
+
+fn build(kind: Kind, pairs: &[(String, String)]) -> Result<VerifRouter, String> {
+    let ba = |i: usize| BasicAuth { username: pairs[i].0.clone(), password: pairs[i].1.clone() };
+    guarded(|| {
+        let o = match (kind, pairs.len()) {
+            (Kind::Single, 1) => Ohkami::new((ba(0), "/".GET(protected).POST(protected))),
+            (Kind::Array, 1) => Ohkami::new(([ba(0)], "/".GET(protected).POST(protected))),
+            (Kind::Array, 2) => Ohkami::new(([ba(0), ba(1)], "/".GET(protected).POST(protected))),
+            (Kind::Array, 3) => Ohkami::new(([ba(0), ba(1), ba(2)], "/".GET(protected).POST(protected))),
+            _ => panic!("unsupported configuration shape"),
+        };
+        VerifRouter::from(o)
+    })
+}
+
+/* ------------------------------------------------------------------ oracle -------------------------------- */
+
+#[derive(Clone, Copy, PartialEq, Eq, Debug)]
+pub enum Expect { Run, Refuse, Either }
+
+pub struct Verdict {
+    pub expect: Expect,
+    /// shape feature of the header relative to the configuration (enters the class id)
+    pub feature: String,
+    /// the credential shares exactly one component with a configured pair, or holds several colons
+    pub collision: bool,
+}
+
+/// relation of decoded credentials to the configured pairs
+fn relation(pairs: &[(String, String)], cred: &str) -> (bool, String, bool) {
+    let Some((user, pass)) = cred.split_once(':') else { return (false, "no-colon".into(), false) };
+    let several_colons = pass.contains(':');
+    if let Some(i) = pairs.iter().position(|(u, p)| u == user && p == pass) {
+        let f = if several_colons { format!("exact-pair@{i}:colon-in-password") } else if user.is_empty() { format!("exact-pair@{i}:empty-user") }
+            else if pass.is_empty() { format!("exact-pair@{i}:empty-password") } else { format!("exact-pair@{i}") };
+        return (true, f, several_colons || i > 0 || user.is_empty() || pass.is_empty())
+    }
+    let user_known = pairs.iter().any(|(u, _)| u == user);
+    let pass_known = pairs.iter().any(|(_, p)| p == pass);
+    // readings a wrong split / a wrong comparison would produce
+    let last_colon_match = cred.rsplit_once(':').is_some_and(|(u, p)| pairs.iter().any(|(cu, cp)| cu == u && cp == p));
+    let concat_match = pairs.iter().any(|(u, p)| format!("{u}{p}") == format!("{user}{pass}"));
+    let prefix = pairs.iter().any(|(u, p)| u == user && (p.starts_with(pass) || pass.starts_with(p.as_str())))
+        || pairs.iter().any(|(u, p)| p == pass && (u.starts_with(user) || user.starts_with(u.as_str())));
+    let f = if user_known && pass_known { "mixed-pair" } else if last_colon_match { "last-colon-pair" }
+        else if user_known && prefix { "user+password-prefix" } else if pass_known && prefix { "password+user-prefix" }
+        else if user_known { "user-only" } else if pass_known { "password-only" }
+        else if concat_match { "moved-colon" } else { "unrelated" };
+    (false, f.to_string(), several_colons || user_known || pass_known || last_colon_match || concat_match)
+}
+
+pub fn expectation(pairs: &[(String, String)], auth: Option<&[u8]>) -> Verdict {
+    let refuse = |f: String, c: bool| Verdict { expect: Expect::Refuse, feature: f, collision: c };
+    let Some(auth) = auth else { return refuse("no-header".into(), false) };
+
+    // what the credentials would be under a given reading of scheme and encoding
+    let creds_ok = |text: &[u8], alpha: Alphabet, pad: Padding, lenient_bits: bool| -> Option<(bool, String, bool)> {
+        let bytes = if lenient_bits { b64::decode_lenient_bits(alpha, pad, text) } else { b64::decode(alpha, pad, text) }.ok()?;
+        let s = std::str::from_utf8(&bytes).ok()?;
+        Some(relation(pairs, s))
+    };
+
+    if let Some(text) = auth.strip_prefix(b"Basic ") {
+        match b64::std_decode(text) {
+            Ok(bytes) => match std::str::from_utf8(&bytes) {
+                Ok(cred) => {
+                    let (ok, f, c) = relation(pairs, cred);
+                    return if ok { Verdict { expect: Expect::Run, feature: f, collision: c } } else { refuse(f, c) }
+                }
+                Err(e) => {
+                    let pos = e.valid_up_to();
+                    let at = if pos + 1 == bytes.len() { "last" } else if pos == 0 { "first" } else { "middle" };
+                    let trunc = if e.error_len().is_none() { ":truncated-sequence" } else { "" };
+                    return refuse(format!("non-utf8@{at}{trunc}"), true)
+                }
+            },
+            Err(err) => {
+                // not *the* base64 of anything; say which near-miss it is
+                let f = match err {
+                    B64Error::TrailingBits => {
+                        if let Some((true, f, _)) = creds_ok(text, Alphabet::Standard, Padding::Required, true) {
+                            return Verdict { expect: Expect::Either, feature: format!("noncanonical-bits:{f}"), collision: true }
+                        }
+                        "noncanonical-bits".to_string()
+                    }
+                    B64Error::Length | B64Error::Padding => {
+                        let body: Vec<u8> = text.iter().copied().filter(|c| *c != b'=').collect();
+                        let stripped_is_all = text.iter().position(|c| *c == b'=').map_or(true, |i| text[i..].iter().all(|c| *c == b'='));
+                        match creds_ok(&body, Alphabet::Standard, Padding::Forbidden, false) {
+                            Some((true, f, _)) if stripped_is_all => return refuse(format!("padding:{f}"), true),
+                            _ => "padding".to_string(),
+                        }
+                    }
+                    B64Error::Symbol(_) => {
+                        let unpadded: Vec<u8> = text.iter().copied().filter(|c| *c != b'=').collect();
+                        if let Some((true, f, _)) = creds_ok(&unpadded, Alphabet::UrlSafe, Padding::Forbidden, false) {
+                            return refuse(format!("urlsafe-alphabet:{f}"), true)
+                        }
+                        let blanks_removed: Vec<u8> = text.iter().copied().filter(|c| !matches!(c, b' ' | b'\t')).collect();
+                        if blanks_removed.len() != text.len() {
+                            if let Some((true, f, _)) = creds_ok(&blanks_removed, Alphabet::Standard, Padding::Required, false) {
+                                // blanks before the credentials (`Basic  dTpw`: RFC 7235 1*SP) or after them (OWS of the
+                                // field) are tolerated by HTTP; blanks *inside* are not
+                                let inner = text.iter().skip_while(|c| matches!(c, b' ' | b'\t')).collect::<Vec<_>>();
+                                let inner: Vec<u8> = inner.into_iter().rev().skip_while(|c| matches!(c, b' ' | b'\t')).copied().collect();
+                                if inner.len() == blanks_removed.len() {
+                                    return Verdict { expect: Expect::Either, feature: format!("blanks-around:{f}"), collision: true }
+                                }
+                                return refuse(format!("blank-inside:{f}"), true)
+                            }
+                        }
+                        "invalid-symbol".to_string()
+                    }
+                };
+                return refuse(f, false)
+            }
+        }
+    }
+    // other spellings of the scheme
+    let trimmed: &[u8] = {
+        let s = auth.iter().position(|c| !matches!(c, b' ' | b'\t')).unwrap_or(auth.len());
+        let e = auth.iter().rposition(|c| !matches!(c, b' ' | b'\t')).map_or(s, |i| i + 1);
+        &auth[s..e]
+    };
+    let (scheme, rest): (&[u8], &[u8]) = match trimmed.iter().position(|c| matches!(c, b' ' | b'\t')) {
+        Some(i) => (&trimmed[..i], {
+            let r = &trimmed[i..];
+            &r[r.iter().position(|c| !matches!(c, b' ' | b'\t')).unwrap_or(r.len())..]
+        }),
+        None => (trimmed, &trimmed[trimmed.len()..]),
+    };
+    if scheme.eq_ignore_ascii_case(b"basic") {
+        if let Some((true, f, _)) = creds_ok(rest, Alphabet::Standard, Padding::Required, false) {
+            let how = if scheme != b"Basic" { "scheme-case" } else { "blanks-around" };
+            return Verdict { expect: Expect::Either, feature: format!("{how}:{f}"), collision: true }
+        }
+        return refuse(if scheme != b"Basic" { "scheme-case".into() } else if rest.is_empty() { "scheme-only".into() } else { "blanks-around".into() }, false)
+    }
+    // `BasicdTpw`, `Basi dTpw`, `Bearer dTpw`, bare credentials …
+    let glued = auth.strip_prefix(b"Basic").and_then(|r| creds_ok(r, Alphabet::Standard, Padding::Required, false));
+    if let Some((true, f, _)) = glued { return refuse(format!("no-space:{f}"), true) }
+    let any_ok = creds_ok(rest, Alphabet::Standard, Padding::Required, false).is_some_and(|r| r.0)
+        || creds_ok(trimmed, Alphabet::Standard, Padding::Required, false).is_some_and(|r| r.0);
+    refuse(if any_ok { "other-scheme:exact-pair".into() } else { "other-scheme".into() }, any_ok)
+}
+
+/* ------------------------------------------------------------------ one case ------------------------------ */
+
+pub struct Config { pub kind: Kind, pub pairs: Vec<(String, String)>, pub router: VerifRouter }
+
+fn config_json(kind: Kind, pairs: &[(String, String)]) -> Value {
+    json!({"kind": match kind { Kind::Single => "single", Kind::Array => "array" },
+           "pairs": pairs.iter().map(|(u, p)| json!([esc(u.as_bytes()), esc(p.as_bytes())])).collect::<Vec<_>>()})
+}
+
+fn request_bytes(method: &str, auth: Option<&[u8]>) -> Vec<u8> {
+    let mut v = format!("{method} / HTTP/1.1\r\nHost: h\r\n").into_bytes();
+    if let Some(a) = auth { v.extend_from_slice(b"Authorization: "); v.extend_from_slice(a); v.extend_from_slice(b"\r\n"); }
+    v.extend_from_slice(b"\r\n");
+    v
+}
+
+fn check_case(ctx: &mut Ctx, cfg: &Config, method: &str, auth: Option<&[u8]>, family: &str) {
+    let v = expectation(&cfg.pairs, auth);
+    let raw = request_bytes(method, auth);
+    if raw.len() > 1000 { ctx.skip(); return }
+    let before = RUNS.load(Ordering::SeqCst);
+    let out = app::oneshot(&cfg.router, &raw);
+    let ran = RUNS.load(Ordering::SeqCst) != before;
+    ctx.distinct_key(&(cfg.kind == Kind::Array, &cfg.pairs, method, auth));
+
+    let shape = match cfg.kind { Kind::Single => "single".to_string(), Kind::Array => format!("array{}", cfg.pairs.len()) };
+    let witness = |observed: String| {
+        let (kind, pairs, auth, family, expect, feature) = (cfg.kind, cfg.pairs.clone(), auth.map(|a| a.to_vec()), family.to_string(), v.expect, v.feature.clone());
+        let method = method.to_string();
+        move || json!({"config": config_json(kind, &pairs), "method": method, "authorization": auth.as_ref().map(|a| esc(a)), "family": family,
+                       "expected": match expect { Expect::Run => "handler runs (200, body `ran:protected`)", Expect::Refuse => "401 + WWW-Authenticate: Basic…, handler does not run", Expect::Either => "not decided" },
+                       "feature": feature, "observed": observed})
+    };
+    let class = |symptom: &str| format!("C13/{}/{}/{}", v.feature_class(), shape, symptom);
+    let nontrivial = auth.is_some_and(|a| a.starts_with(b"Basic ") || a.len() > 6);
+
+    match &out {
+        Outcome::Panic(stage, msg) => { ctx.violation(&class(&format!("panic@{stage}:{}", panic_kind(msg))), nontrivial, witness(out.kind())); return }
+        Outcome::Stall(stage) => { ctx.violation(&class(&format!("stall@{stage}")), nontrivial, witness(out.kind())); return }
+        Outcome::Closed => { ctx.violation(&class("closed-without-response"), nontrivial, witness(out.kind())); return }
+        Outcome::Response { parsed: Err(e), .. } => { ctx.violation(&class("malformed-response"), nontrivial, witness(format!("malformed response: {e}"))); return }
+        Outcome::Response { parsed: Ok(_), .. } => {}
+    }
+    let p = out.parsed().unwrap();
+    let challenge = p.header_all("WWW-Authenticate");
+    let observed = format!("status {} ran={} body={:?} www-authenticate={:?}", p.status, ran, String::from_utf8_lossy(&p.body), challenge);
+    let echo_ok = p.status == 200 && p.body == MARK.as_bytes();
+    let refusal_ok = p.status == 401 && challenge.len() == 1 && challenge[0].get(..5).is_some_and(|s| s.eq_ignore_ascii_case("basic"))
+        && (challenge[0].len() == 5 || challenge[0].as_bytes()[5] == b' ');
+    match v.expect {
+        Expect::Run => {
+            if !ran { ctx.violation(&class(&format!("refused-should-accept:{}", p.status)), nontrivial, witness(observed)) }
+            else if !echo_ok { ctx.violation(&class("handler-ran-but-wrong-response"), nontrivial, witness(observed)) }
+            else { ctx.pass(&format!("run:{}", v.feature_class()), nontrivial, v.collision) }
+        }
+        Expect::Refuse => {
+            if ran { ctx.violation(&class("accepted-should-refuse"), nontrivial, witness(observed)) }
+            else if p.status != 401 { ctx.violation(&class(&format!("refused-with-status:{}", p.status)), nontrivial, witness(observed)) }
+            else if !refusal_ok { ctx.violation(&class("401-without-basic-challenge"), nontrivial, witness(observed)) }
+            else { ctx.pass(&format!("401:{}", v.feature_class()), nontrivial, v.collision) }
+        }
+        Expect::Either => {
+            if (ran && echo_ok) || (!ran && refusal_ok) { ctx.ambiguous(&format!("{}:{}", v.feature_class(), if ran { "ran" } else { "401" })) }
+            else { ctx.violation(&class("neither-run-nor-proper-401"), nontrivial, witness(observed)) }
+        }
+    }
+}
+
+impl Verdict {
+    fn feature_class(&self) -> &str { &self.feature }
+}
+
+/* --------------------------------------------------------------- header families --------------------------- */
+
+fn cred(u: &str, p: &str) -> Vec<u8> { format!("{u}:{p}").into_bytes() }
+fn basic(cred: &[u8]) -> Vec<u8> { [b"Basic ", b64::std_encode(cred).as_bytes()].concat() }
+
+/// (family, Authorization value) — everything here is independent of the configuration except through the
+/// universe of users and passwords, which is the same for all configurations (the whole pair alphabet).
+fn header_alphabet(tier_quick: bool) -> Vec<(&'static str, Option<Vec<u8>>)> {
+    let mut out: Vec<(&'static str, Option<Vec<u8>>)> = vec![("absent", None)];
+    let mut users: Vec<&str> = PAIRS.iter().map(|p| p.0).collect(); users.sort(); users.dedup();
+    let mut passes: Vec<&str> = PAIRS.iter().map(|p| p.1).collect(); passes.sort(); passes.dedup();
+    users.extend(["U", "u ", "x", "p"]);   // "p" + password "u": the swapped pair
+    passes.extend(["P", "p ", "q", "p:", ":p", "p:q:r", "x", "u"]);
+
+    // every user × password, canonical and in every near-miss encoding
+    for u in &users { for p in &passes {
+        let c = cred(u, p);
+        let canon = b64::std_encode(&c);
+        out.push(("pair-product", Some(basic(&c))));
+        if canon.ends_with('=') { out.push(("no-padding", Some([b"Basic ", canon.trim_end_matches('=').as_bytes()].concat()))); }
+        if canon.ends_with("==") { out.push(("half-padding", Some([b"Basic ", canon[..canon.len() - 1].as_bytes()].concat()))); }
+        out.push(("extra-padding", Some([b"Basic ", canon.as_bytes(), b"="].concat())));
+        let url = b64::encode(Alphabet::UrlSafe, true, &c);
+        if url != canon {
+            out.push(("urlsafe-padded", Some([b"Basic ", url.as_bytes()].concat())));
+            out.push(("urlsafe-unpadded", Some([b"Basic ", url.trim_end_matches('=').as_bytes()].concat())));
+        }
+        // non-canonical last symbol (unused bits set): every alternative symbol that decodes to the same bytes
+        let body = canon.trim_end_matches('=');
+        let pads = &canon[body.len()..];
+        if !pads.is_empty() {
+            let last = *body.as_bytes().last().unwrap();
+            for alt in b"ABCDEFGHIJKLMNOPQRSTUVWXYZabcdefghijklmnopqrstuvwxyz0123456789+/" {
+                if *alt == last { continue }
+                let mut t = body.as_bytes().to_vec(); *t.last_mut().unwrap() = *alt; t.extend_from_slice(pads.as_bytes());
+                if b64::decode_lenient_bits(Alphabet::Standard, Padding::Required, &t).ok().as_deref() == Some(&c[..]) {
+                    out.push(("noncanonical-bits", Some([b"Basic ", &t[..]].concat())));
+                }
+            }
+        }
+    } }
+    // scheme / spacing variants, around a right and around a wrong credential
+    for (u, p) in [("u", "p"), ("u", "p:q"), ("ü", "pä"), ("", "p"), ("u", ""), ("x", "x")] {
+        let b = b64::std_encode(&cred(u, p));
+        for (fam, text) in [
+            ("scheme-case", format!("basic {b}")), ("scheme-case", format!("BASIC {b}")), ("scheme-case", format!("bASIC {b}")),
+            ("no-space", format!("Basic{b}")), ("two-spaces", format!("Basic  {b}")), ("tab", format!("Basic\t{b}")),
+            ("trailing-space", format!("Basic {b} ")), ("leading-space", format!(" Basic {b}")),
+            ("other-scheme", format!("Bearer {b}")), ("other-scheme", format!("Digest {b}")), ("other-scheme", format!("Basi {b}")),
+            ("other-scheme", format!("Basicx {b}")), ("other-scheme", format!("Basic: {b}")), ("bare-credentials", b.clone()),
+            ("twice", format!("Basic {b} {b}")), ("twice", format!("Basic {b}, Basic {b}")), ("twice", format!("Basic Basic {b}")),
+            ("blank-inside", format!("Basic {} {}", &b[..2], &b[2..])), ("plain-credentials", format!("Basic {u}:{p}")),
+            ("suffix", format!("Basic {b}A")), ("suffix", format!("Basic {b}AAAA")), ("prefix", format!("Basic AAAA{b}")),
+        ] { out.push((fam, Some(text.into_bytes()))); }
+    }
+    for text in ["Basic", "Basic ", "Basic  ", "", " ", "Basic =", "Basic ====", "Basic !!!!", "Basic dTpw\u{e4}", "Basic Og==", "Basic OjA=", "Basic *"] {
+        out.push(("degenerate", Some(text.as_bytes().to_vec())));
+    }
+    // credentials that are not UTF-8: one offending byte at the first / a middle / the last position, as a stray
+    // continuation byte, an impossible byte and a truncated sequence
+    for bad in [&[0xffu8][..], &[0x80], &[0xc3], &[0xe2, 0x82], &[0xc3, 0x28]] {
+        for base in ["u:p", "u:", ":", ""] {
+            let b = base.as_bytes();
+            for pos in 0..=b.len() {
+                let c = [&b[..pos], bad, &b[pos..]].concat();
+                out.push(("non-utf8", Some(basic(&c))));
+            }
+        }
+    }
+    // every credential byte string of length <= n over a colliding alphabet
+    let alpha: [&[u8]; 6] = [b"u", b"p", b":", b"q", &[0xc3, 0xbc] /* ü */, &[0xff]];
+    for s in strings_over(&alpha, if tier_quick { 5 } else { 7 }) { out.push(("all-short-credentials", Some(basic(&s)))); }
+    // one case per distinct header value (the first family that produced it names it)
+    let mut seen = std::collections::HashSet::new();
+    out.retain(|(_, a)| seen.insert(a.clone()));
+    out
+}
+
+/// every single-symbol substitution of a correct header value (over base64 + `=`, ` `, `-`, `_`, `:`)
+fn substitutions(value: &[u8]) -> Vec<Vec<u8>> {
+    let alphabet = b"ABCDEFGHIJKLMNOPQRSTUVWXYZabcdefghijklmnopqrstuvwxyz0123456789+/=-_ :";
+    let mut out = vec![];
+    for i in 0..value.len() { for c in alphabet { if value[i] != *c { let mut m = value.to_vec(); m[i] = *c; out.push(m); } } }
+    // deletions and insertions of one symbol at every position
+    for i in 0..value.len() { let mut m = value.to_vec(); m.remove(i); out.push(m); }
+    for i in 0..=value.len() { for c in [b'A', b'=', b' '] { let mut m = value.to_vec(); m.insert(i, c); out.push(m); } }
+    out
+}
+
+pub fn configurations(_tier_quick: bool) -> Vec<(Kind, Vec<(String, String)>)> {
+    let n = PAIRS.len();
+    let own = |idx: &[usize]| idx.iter().map(|i| (PAIRS[*i].0.to_string(), PAIRS[*i].1.to_string())).collect::<Vec<_>>();
+    let mut out = vec![];
+    for i in 0..n { out.push((Kind::Single, own(&[i]))); out.push((Kind::Array, own(&[i]))); }
+    for i in 0..n { for j in 0..n { if i != j { out.push((Kind::Array, own(&[i, j]))); } } }
+    for i in 0..n { for j in 0..n { for k in 0..n {
+        if i != j && j != k && i != k {
+            out.push((Kind::Array, own(&[i, j, k])));
+        }
+    } } }
+    out
+}
+
+pub fn run(ctx: &mut Ctx) {
+    app::pin_clock();
+    let quick = ctx.quick();
+    let headers = header_alphabet(quick);
+    let configs = configurations(quick);
+    let mut n_cfg = 0u64;
+    for (kind, pairs) in &configs {
+        if !ctx.mine() { continue }
+        if ctx.out_of_time() { break }
+        let router = match build(*kind, pairs) {
+            Ok(r) => r,
+            Err(p) => { ctx.violation(&format!("C13/build/panic:{}", panic_kind(&p)), true, || json!({"config": config_json(*kind, pairs), "build_only": true, "observed": p})); continue }
+        };
+        let cfg = Config { kind: *kind, pairs: pairs.clone(), router };
+        n_cfg += 1;
+        for (family, auth) in &headers {
+            check_case(ctx, &cfg, "GET", auth.as_deref(), family);
+        }
+        // POST: the right credentials of every configured pair, a mixed pair, no header
+        for (u, p) in pairs { check_case(ctx, &cfg, "POST", Some(&basic(&cred(u, p))), "post"); }
+        check_case(ctx, &cfg, "POST", Some(&basic(&cred(&pairs[0].0, "x"))), "post");
+        check_case(ctx, &cfg, "POST", None, "post");
+        // every one-symbol edit of every correct header value
+        for (u, p) in pairs {
+            for m in substitutions(&basic(&cred(u, p))) { check_case(ctx, &cfg, "GET", Some(&m), "one-symbol-edit"); }
+        }
+        if n_cfg == 1 {
+            ctx.sample(|| json!({"config": config_json(*kind, pairs), "authorization": esc(&basic(&cred(&pairs[0].0, &pairs[0].1))), "expected": "handler runs"}));
+            ctx.sample(|| json!({"config": config_json(*kind, pairs), "authorization": esc(&basic(&cred(&pairs[0].0, "x"))), "expected": "401 + challenge"}));
+        }
+    }
+    ctx.extra.insert("rule".into(), json!("case = (pair list as BasicAuth or [BasicAuth; N], method, Authorization value or none); non-trivial = an Authorization header with something after the scheme; collision = the decoded credential shares exactly one component (user xor password) with a configured pair, matches a pair only under a wrong split (last colon / moved colon), holds several colons, is not UTF-8, or is a right credential in a non-canonical spelling"));
+    ctx.extra.insert("bounds".into(), json!({
+        "pairs": PAIRS.iter().map(|(u, p)| format!("{u}:{p}")).collect::<Vec<_>>(),
+        "configurations": configs.len(), "pair_list_lengths": [1, 2, 3],
+        "header_alphabet_per_configuration": headers.len(),
+        "all_short_credentials_max_len": if quick { 5 } else { 7 },
+        "one_symbol_edits": "every substitution over 69 symbols + every deletion + 3 insertions per position, of every configured pair's correct header",
+        "methods": ["GET", "POST"],
+    }));
+    ctx.extra.insert("sum_configurations_built".into(), json!(n_cfg));
+}
+
+pub fn replay(ctx: &mut Ctx, case: &Value) {
+    app::pin_clock();
+    let kind = if case["config"]["kind"] == "single" { Kind::Single } else { Kind::Array };
+    let pairs: Vec<(String, String)> = case["config"]["pairs"].as_array().expect("config.pairs").iter().map(|p| {
+        let s = |i: usize| String::from_utf8(unesc(p[i].as_str().expect("pair member"))).expect("pair is UTF-8");
+        (s(0), s(1))
+    }).collect();
+    let router = match build(kind, &pairs) {
+        Ok(r) => r,
+        Err(p) => { ctx.violation(&format!("C13/build/panic:{}", panic_kind(&p)), true, || json!({"config": config_json(kind, &pairs), "build_only": true, "observed": p})); return }
+    };
+    if case["build_only"] == true { ctx.pass("build-ok", true, true); return }
+    let cfg = Config { kind, pairs, router };
+    let auth = case["authorization"].as_str().map(unesc);
+    check_case(ctx, &cfg, case["method"].as_str().unwrap_or("GET"), auth.as_deref(), case["family"].as_str().unwrap_or("replay"));
+}
